@@ -30,26 +30,58 @@ theorem C05_minimal_diff (f : Str → Str → Except Err Str) (us : List Upd) (l
 /-- **File and index agree on the rewritten first line**: the body `_add_zids` stores in the index
 (`addZidToBody`, computed from the compiled body) is exactly what follows the prefix in the line that
 `_add_zid_to_line` writes (`C05_zid_after_prefix`) — for every body whose first word is not blank. -/
-theorem C05_index_body_agrees (zid : Str) (body : List Str) (hb : body ≠ []) (hsp : ∀ w ∈ body, ' ' ∉ w)
-    (hh : ∀ w, body.head? = some w → ∃ c cs, w = c :: cs ∧
+theorem C05_index_body_agrees (zid : Str) (body : List Str) (hb : body ≠ [])
+    (hh : ∀ w, body.head? = some w → w ≠ [] ∧ ∀ c ∈ w,
       (c == ' ' || c == '\t' || c == '\n' || c == '\r' || c == '\x0b' || c == '\x0c') = false) :
     addZidToBody zid (joinSp body) = zid ++ [' '] ++ joinSp (dropLeading isLongDate body) := by
   cases body with
   | nil => exact absurd rfl hb
   | cons w r =>
-    obtain ⟨c, cs, hw, hc⟩ := hh w rfl
-    have hj : ∃ t, joinSp (w :: r) = c :: t := by
-      subst hw
-      exact ⟨_, joinWith_consChar [' '] c cs r⟩
-    obtain ⟨t, ht⟩ := hj
-    unfold addZidToBody
-    have hd : (joinSp (w :: r)).dropWhile (fun c => c == ' ' || c == '\t' || c == '\n' || c == '\r' || c == '\x0b' || c == '\x0c')
-        = joinSp (w :: r) := by
-      rw [ht, List.dropWhile_cons, hc]; rfl
-    simp only [hd]
-    rw [splitOn_joinSp (w :: r) (by simp) hsp]
-    simp only [dropLeading]
-    split <;> rfl
+    obtain ⟨hne, hw⟩ := hh w rfl
+    have hdw : ∀ (p : Char → Bool) (u v : Str), (∀ c ∈ u, p c = true) → (v = [] ∨ ∃ c t, v = c :: t ∧ p c = false) →
+        (u ++ v).takeWhile p = u := by
+      intro p u v hu hv
+      induction u with
+      | nil =>
+        rcases hv with rfl | ⟨c, t, rfl, hc⟩
+        · rfl
+        · simp [List.takeWhile, hc]
+      | cons a u ih =>
+        have ha : p a = true := hu a (by simp)
+        simp only [List.cons_append, List.takeWhile_cons, ha, if_true]
+        rw [ih (fun c hc => hu c (by simp [hc]))]
+    obtain ⟨c0, cs0, hw0⟩ : ∃ c cs, w = c :: cs := by
+      cases w with
+      | nil => exact absurd rfl hne
+      | cons c cs => exact ⟨c, cs, rfl⟩
+    have hc0 := hw c0 (by simp [hw0])
+    -- the joined text: the first word followed by `rest` (nothing, or a space and the other words)
+    have key : ∀ rest : Str, (rest = [] ∨ ∃ t, rest = ' ' :: t) →
+        addZidToBody zid (w ++ rest) = zid ++ [' '] ++
+          (if isLongDate w then (match rest with | ' ' :: t => t | _ => rest) else w ++ rest) := by
+      intro rest hr
+      unfold addZidToBody
+      have hd : (w ++ rest).dropWhile (fun c => c == ' ' || c == '\t' || c == '\n' || c == '\r' || c == '\x0b' || c == '\x0c') = w ++ rest := by
+        rw [hw0]; simp only [List.cons_append, List.dropWhile_cons, hc0]; rfl
+      have htw : (w ++ rest).takeWhile (fun c => !(c == ' ' || c == '\t' || c == '\n' || c == '\r' || c == '\x0b' || c == '\x0c')) = w := by
+        apply hdw
+        · intro c hc; simp [hw c hc]
+        · rcases hr with h | ⟨t, h⟩
+          · exact Or.inl h
+          · exact Or.inr ⟨' ', t, h, by decide⟩
+      simp only [hd, htw, List.drop_left]
+      split <;> first | rfl | (rcases hr with rfl | ⟨t, rfl⟩ <;> rfl)
+    cases r with
+    | nil =>
+      have : joinSp [w] = w ++ [] := by simp [joinSp, joinWith]
+      rw [this, key [] (Or.inl rfl)]
+      simp only [dropLeading]
+      split <;> simp [joinSp, joinWith]
+    | cons y ys =>
+      have : joinSp (w :: y :: ys) = w ++ (' ' :: joinSp (y :: ys)) := by simp [joinSp, joinWith]
+      rw [this, key _ (Or.inr ⟨_, rfl⟩)]
+      simp only [dropLeading]
+      split <;> simp [joinSp, joinWith]
 
 /-- **The written ZID is read back**: a line whose first word after the prefix is a ZID (what `C05_zid_after_prefix` writes,
 one `ZID` token by `C07_allocated_lexes`) compiles to a note with that ZID and the ZID's date, whatever the rest of the line is —
@@ -66,6 +98,8 @@ example : (addZidToLine "240615#00".toList "  o P1   2024-01-02 spaced  todo".to
 example : (addZidToLine "240615#00".toList "- P5 is a word".toList).toOption = some ("- 240615#00 P5 is a word".toList) := by decide +kernel
 example : (addZidToLine "240615#00".toList "- 1234567890 is my phone".toList).toOption = some ("- 240615#00 1234567890 is my phone".toList) := by decide +kernel
 example : addZidToBody "240615#00".toList "2024-01-02 spaced  todo".toList = "240615#00 spaced  todo".toList := by decide +kernel
+-- the create date as the only word of the first line (repaired, see known_findings.json): the continuation lines are kept
+example : addZidToBody "240102#00".toList "2024-01-02\n  continuation text".toList = "240102#00 \n  continuation text".toList := by decide +kernel
 -- `C05_index_body_agrees` on a concrete body: what the index stores is what the file line shows after the prefix
 example : addZidToBody "240615#00".toList (joinSp ["2024-01-02".toList, "buy".toList, "milk".toList]) =
     "240615#00".toList ++ [' '] ++ joinSp (dropLeading isLongDate ["2024-01-02".toList, "buy".toList, "milk".toList]) := by decide +kernel
